@@ -4,7 +4,6 @@ import (
 	"fmt"
 	"go/constant"
 	"go/token"
-	"sort"
 	"strings"
 
 	"golang.org/x/tools/go/ssa"
@@ -143,10 +142,10 @@ func init() {
 	register(&Rule{ID: "CUR.pure", Floor: 8,
 		Doc: "Peek, PeekLine, PeekColumn, Line, Column and the helpers they use store to no field (peeks never move the cursor)",
 		Run: ruleCurPure})
-	register(&Rule{ID: "CUR.siblings", Floor: 5,
+	register(&Rule{ID: "CUR.siblings", Floor: 3,
 		Doc: "Read, PeekLine, PeekColumn, Unread and the recomputation loop classify a position with the same window (before, at, after) = three consecutive offsets, test the column of the middle character, and the sliding window of the loop advances each variable from its right neighbour; peeks return the current coordinates once the end-of-input slot is consumed; Read performs the update for every position it enters, the end-of-input slot included",
 		Run: ruleCurSiblings})
-	register(&Rule{ID: "CUR.unread", Floor: 5,
+	register(&Rule{ID: "CUR.unread", Floor: 3,
 		Doc: "Unread changes line/column only in ways that are functions of the content: one column back when the character put back occupies a column, nothing when it is a CR glued to an LF, a full recomputation (line and column both reset, then replayed up to the new position) otherwise; UnreadMany(n) is n × Unread; Reset restores the constructor's state",
 		Run: ruleCurUnread})
 }
@@ -375,394 +374,320 @@ func positionOffset(v ssa.Value) (int64, bool) {
 	return 0, false
 }
 
+// ---- the scanner evaluated abstractly ------------------------------------------------------------------
+//
+// The cursor routines are evaluated with the shared abstract interpreter over every content of up to
+// three characters drawn from the partition {LF, CR, X = any other character} (the classification
+// window is three characters wide, so every arrangement of a window and of both content ends occurs).
+// Characters are symbols: they can only be compared (LF = 10, CR = 13, X differs from every constant);
+// the cursor, line and column are integers. No content is read from a file or run through the library:
+// the routines' SSA is interpreted. The specification is relational - what a fresh forward scan to the
+// same position reports - so it does not restate the line rule (that is CUR.linerule).
+
+type curState struct {
+	pos, line, col int64
+}
+
+type curModel struct {
+	c       *Ctx
+	content []string
+	opaque  string
+	panics  string
+}
+
+func (m *curModel) run(method string, st curState, args ...aiVal) (aiVal, curState, bool) {
+	c := m.c
+	fn := c.MustFunc("io", "StringScanner", method)
+	ai := &absInterp{c: c, fn: fn, env: map[ssa.Value]aiVal{}, fields: map[string]aiVal{}}
+	lst := aiVal{kind: "list"}
+	for _, ch := range m.content {
+		lst.tup = append(lst.tup, aiSym(ch))
+	}
+	ai.fields["content"] = lst
+	ai.fields["position"] = aiInt(st.pos)
+	ai.fields["line"] = aiInt(st.line)
+	ai.fields["column"] = aiInt(st.col)
+	for i, a := range args {
+		if i+1 < len(fn.Params) {
+			ai.env[fn.Params[i+1]] = a
+		}
+	}
+	ai.inline = func(g *ssa.Function) bool { return recvNamedFn(g) == "StringScanner" }
+	ai.cmp = func(a, b aiVal) (bool, bool) {
+		code := func(v aiVal) (int64, bool, bool) { // value, isKnownConstant, isSymbol
+			switch {
+			case v.kind == "int":
+				return v.n, true, false
+			case v.kind == "sym" && v.s == "LF":
+				return 10, true, true
+			case v.kind == "sym" && v.s == "CR":
+				return 13, true, true
+			case v.kind == "sym" && v.s == "X":
+				return 0, false, true
+			}
+			return 0, false, false
+		}
+		av, ak, as := code(a)
+		bv, bk, bs := code(b)
+		if !(as || ak) || !(bs || bk) {
+			return false, false
+		}
+		if as && bs {
+			return a.s == b.s, true
+		}
+		if ak && bk {
+			return av == bv, true
+		}
+		return false, true // X against a constant
+	}
+	out := ai.run(fn.Blocks[0], nil, 0)
+	switch out.kind {
+	case "panic":
+		m.panics = method + ": " + out.why
+		return aiVal{}, st, false
+	case "return":
+	default:
+		m.opaque = method + ": " + out.why
+		return aiVal{}, st, false
+	}
+	ns := st
+	for name, dst := range map[string]*int64{"position": &ns.pos, "line": &ns.line, "column": &ns.col} {
+		v := ai.fields[name]
+		if v.kind != "int" {
+			m.opaque = method + " leaves " + name + " outside the model"
+			return aiVal{}, st, false
+		}
+		*dst = v.n
+	}
+	if l := ai.fields["content"]; l.kind != "list" || len(l.tup) != len(m.content) {
+		m.opaque = method + " changes the content"
+		return aiVal{}, st, false
+	}
+	var ret aiVal
+	if len(out.ret) == 1 {
+		ret = out.ret[0]
+	}
+	return ret, ns, true
+}
+
+func curContents() [][]string {
+	out := [][]string{{}}
+	alphabet := []string{"LF", "CR", "X"}
+	var rec func(prefix []string, n int)
+	rec = func(prefix []string, n int) {
+		if n == 0 {
+			out = append(out, append([]string{}, prefix...))
+			return
+		}
+		for _, a := range alphabet {
+			rec(append(prefix, a), n-1)
+		}
+	}
+	for n := 1; n <= 3; n++ {
+		rec(nil, n)
+	}
+	return out
+}
+
+type curCheck struct {
+	key, ok string
+	runs    int
+	bad     string
+	undec   string
+}
+
+// curModelResults evaluates all relational checks once (shared by CUR.siblings and CUR.unread).
+var curModelMemo map[string]*curCheck
+
+func (c *Ctx) curModelResults() map[string]*curCheck {
+	if curModelMemo != nil {
+		return curModelMemo
+	}
+	checks := map[string]*curCheck{}
+	get := func(key, ok string) *curCheck {
+		if checks[key] == nil {
+			checks[key] = &curCheck{key: key, ok: ok}
+		}
+		return checks[key]
+	}
+	show := func(content []string) string { return "[" + strings.Join(content, " ") + "]" }
+	fail := func(ch *curCheck, m *curModel, msg string) {
+		switch {
+		case m.panics != "":
+			if ch.bad == "" {
+				ch.bad = "panics on content " + show(m.content) + ": " + m.panics
+			}
+		case m.opaque != "":
+			ch.undec = m.opaque
+		case ch.bad == "":
+			ch.bad = msg + " (content " + show(m.content) + ")"
+		}
+	}
+	for _, content := range curContents() {
+		n := int64(len(content))
+		m := &curModel{c: c, content: content}
+		// forward scan: the states after 0, 1, …, n+1 reads from the constructor's state (position -1, line 1, column 0)
+		states := []curState{{-1, 1, 0}}
+		chRead := get("Read#forward-scan", "Read returns the characters in order, then -1 for ever, and moves the cursor by one up to the end-of-input slot")
+		okScan := true
+		for p := int64(0); p <= n && okScan; p++ {
+			chRead.runs++
+			ret, ns, ok := m.run("Read", states[len(states)-1])
+			if !ok {
+				fail(chRead, m, "")
+				okScan = false
+				break
+			}
+			if ns.pos != p {
+				fail(chRead, m, fmt.Sprintf("read number %d moves the cursor to %d", p+1, ns.pos))
+			}
+			if p < n {
+				if !(ret.kind == "sym" && ret.s == content[p]) {
+					fail(chRead, m, fmt.Sprintf("read number %d does not return the character at that position", p+1))
+				}
+			} else if !(ret.kind == "int" && ret.n == -1) {
+				fail(chRead, m, "reading at the end does not return -1")
+			}
+			states = append(states, ns)
+		}
+		if !okScan {
+			continue
+		}
+		// index i of states = cursor position i-1
+		at := func(p int64) curState { return states[p+1] }
+		// Read at the end of input saturates
+		{
+			chRead.runs++
+			ret, ns, ok := m.run("Read", at(n))
+			if !ok {
+				fail(chRead, m, "")
+			} else if ns != at(n) || !(ret.kind == "int" && ret.n == -1) {
+				fail(chRead, m, "a further read at the end of input moves the cursor or the coordinates (or does not return -1)")
+			}
+		}
+		for p := int64(-1); p <= n; p++ {
+			st := at(p)
+			// peeks: no movement, and they predict the next read
+			chPeek := get("Peek#predicts-next-read", "Peek, PeekLine and PeekColumn leave the cursor alone and report the character, line and column the next Read gives (the current ones once the end-of-input slot is consumed)")
+			for _, pk := range []string{"Peek", "PeekLine", "PeekColumn"} {
+				chPeek.runs++
+				ret, ns, ok := m.run(pk, st)
+				if !ok {
+					fail(chPeek, m, "")
+					continue
+				}
+				if ns != st {
+					fail(chPeek, m, pk+" moves the cursor or changes the coordinates")
+				}
+				next := st
+				if p < n {
+					next = at(p + 1)
+				}
+				switch pk {
+				case "PeekLine":
+					if !(ret.kind == "int" && ret.n == next.line) {
+						fail(chPeek, m, fmt.Sprintf("at position %d PeekLine reports %s, the next read gives line %d", p, aiRender(ret), next.line))
+					}
+				case "PeekColumn":
+					if !(ret.kind == "int" && ret.n == next.col) {
+						fail(chPeek, m, fmt.Sprintf("at position %d PeekColumn reports %s, the next read gives column %d", p, aiRender(ret), next.col))
+					}
+				case "Peek":
+					if p+1 < n {
+						if !(ret.kind == "sym" && ret.s == content[p+1]) {
+							fail(chPeek, m, fmt.Sprintf("at position %d Peek does not report the next character", p))
+						}
+					} else if !(ret.kind == "int" && ret.n == -1) {
+						fail(chPeek, m, "Peek at the end does not report -1")
+					}
+				}
+			}
+			// Unread: exactly one step back to the forward-scan state, no-op at the start
+			chUn := get("Unread#fresh-scan-state", "Unread steps back exactly one read (no-op at the start) and leaves line and column as a fresh forward scan to the new position reports them")
+			chUn.runs++
+			if _, ns, ok := m.run("Unread", st); !ok {
+				fail(chUn, m, "")
+			} else {
+				want := st
+				if p >= 0 {
+					want = at(p - 1)
+				}
+				if ns != want {
+					fail(chUn, m, fmt.Sprintf("Unread at position %d (line %d, column %d) gives position %d, line %d, column %d; a fresh scan to position %d reports line %d, column %d", p, st.line, st.col, ns.pos, ns.line, ns.col, want.pos, want.line, want.col))
+				}
+			}
+			// UnreadMany(k) = k × Unread
+			chMany := get("UnreadMany#n-times-unread", "UnreadMany(k) steps back k reads, stopping at the start")
+			for k := int64(0); k <= n+2; k++ {
+				chMany.runs++
+				if _, ns, ok := m.run("UnreadMany", st, aiInt(k)); !ok {
+					fail(chMany, m, "")
+				} else {
+					q := p - k
+					if q < -1 {
+						q = -1
+					}
+					if ns != at(q) {
+						fail(chMany, m, fmt.Sprintf("UnreadMany(%d) at position %d ends at position %d, line %d, column %d instead of the fresh-scan state of position %d", k, p, ns.pos, ns.line, ns.col, q))
+					}
+				}
+			}
+			// Reset
+			chReset := get("Reset#constructor-state", "Reset restores the constructor's state")
+			chReset.runs++
+			if _, ns, ok := m.run("Reset", st); !ok {
+				fail(chReset, m, "")
+			} else if ns != at(-1) {
+				fail(chReset, m, "Reset does not return to position -1, line 1, column 0")
+			}
+			// Line / Column report the fields
+			chLC := get("Line-Column#report-state", "Line and Column report the current coordinates")
+			for _, g := range []string{"Line", "Column"} {
+				chLC.runs++
+				ret, ns, ok := m.run(g, st)
+				want := st.line
+				if g == "Column" {
+					want = st.col
+				}
+				if !ok {
+					fail(chLC, m, "")
+				} else if ns != st || !(ret.kind == "int" && ret.n == want) {
+					fail(chLC, m, g+" does not report the current value (or changes the state)")
+				}
+			}
+		}
+	}
+	curModelMemo = checks
+	return checks
+}
+
+func curEmit(c *Ctx, o *obl, keys []string) {
+	res := c.curModelResults()
+	fn := c.MustFunc("io", "StringScanner", "Read")
+	for _, k := range keys {
+		ch := res[k]
+		key := "io.(*StringScanner)." + k
+		switch {
+		case ch == nil:
+			o.undecided(key, c.Pos(fn.Pos()), "the scanner model produced no result for this check")
+		case ch.bad != "":
+			o.bad(key, c.Pos(fn.Pos()), ch.bad)
+		case ch.undec != "":
+			o.undecided(key, c.Pos(fn.Pos()), ch.undec)
+		default:
+			o.ok(key, c.Pos(fn.Pos()), fmt.Sprintf("%d abstract run(s) over all contents of up to 3 characters from {LF, CR, other}: %s", ch.runs, ch.ok))
+		}
+	}
+}
+
 func ruleCurSiblings(c *Ctx) []*Obligation {
 	o := newObl("CUR.siblings")
-	charAt := c.MustFunc(pkgIO, "StringScanner", "charAt")
-	isLine := c.MustFunc(pkgIO, "StringScanner", "isLine")
-	isCol := c.MustFunc(pkgIO, "StringScanner", "isColumn")
-	offsetOfChar := func(v ssa.Value) (int64, bool) {
-		call, ok := v.(*ssa.Call)
-		if !ok || call.Call.StaticCallee() != charAt {
-			return 0, false
-		}
-		return positionOffset(call.Call.Args[1])
-	}
-	// expected window start relative to the position field at the time of the load
-	want := map[string]int64{"Read": -1, "PeekLine": 0, "PeekColumn": 0}
-	for _, name := range []string{"Read", "PeekLine", "PeekColumn"} {
-		fn := c.MustFunc(pkgIO, "StringScanner", name)
-		key := c.FuncKey(fn) + "#window"
-		bad := ""
-		nLine := 0
-		var mid ssa.Value
-		for _, ci := range allCalls(fn) {
-			if ci.Common().StaticCallee() == isLine {
-				nLine++
-				a := ci.Common().Args
-				k1, ok1 := offsetOfChar(a[1])
-				k2, ok2 := offsetOfChar(a[2])
-				k3, ok3 := offsetOfChar(a[3])
-				if !ok1 || !ok2 || !ok3 {
-					bad = "the line test is not applied to charAt(position+k) characters"
-					continue
-				}
-				if k2 != k1+1 || k3 != k2+1 {
-					bad = fmt.Sprintf("the line test looks at offsets (%d,%d,%d), not three consecutive characters", k1, k2, k3)
-				}
-				if k1 != want[name] {
-					bad = fmt.Sprintf("the window starts at position%+d, expected position%+d: the coordinates of a different character are reported", k1, want[name])
-				}
-				mid = a[2]
-			}
-		}
-		for _, ci := range allCalls(fn) {
-			if ci.Common().StaticCallee() == isCol && mid != nil && ci.Common().Args[1] != mid {
-				if k, ok := offsetOfChar(ci.Common().Args[1]); !ok || func() bool { km, _ := offsetOfChar(mid); return k != km }() {
-					bad = "the column test is applied to a different character than the line test"
-				}
-			}
-		}
-		if nLine != 1 {
-			bad = fmt.Sprintf("%d line tests found, expected 1", nLine)
-		}
-		o.check(bad == "", key, c.Pos(fn.Pos()), "isLine(before, at, after) on consecutive characters around the position being entered; isColumn on the same middle character", bad)
-	}
-	// Read updates for every position it enters: no return between the position store and the update
-	read := c.MustFunc(pkgIO, "StringScanner", "Read")
-	{
-		key := c.FuncKey(read) + "#slot-counted"
-		var store ssa.Instruction
-		for _, b := range read.Blocks {
-			for _, in := range b.Instrs {
-				if st, ok := in.(*ssa.Store); ok {
-					if fa, ok := st.Addr.(*ssa.FieldAddr); ok && fieldName(fa.X.Type(), fa.Field) == "position" {
-						store = st
-					}
-				}
-			}
-		}
-		bad := ""
-		if store == nil {
-			bad = "Read does not move the cursor"
-		} else {
-			for _, ret := range returnsOf(read) {
-				if !instrDominates(store, ret) {
-					continue
-				}
-				passes := false
-				for _, ci := range allCalls(read) {
-					if ci.Common().StaticCallee() == isLine && instrDominates(store, ci) && instrDominates(ci, ret) {
-						passes = true
-					}
-				}
-				if !passes {
-					bad = "Read returns after moving the cursor without updating line/column (the end-of-input slot is entered uncounted, while the peeks and the recomputation count it)"
-				}
-			}
-		}
-		o.check(bad == "", key, c.Pos(read.Pos()), "every return after the cursor moved passes the line/column update", bad)
-	}
-	// peeks inside the end-of-input slot return the current coordinates
-	for _, spec := range []struct{ name, field string }{{"PeekLine", "line"}, {"PeekColumn", "column"}} {
-		fn := c.MustFunc(pkgIO, "StringScanner", spec.name)
-		key := c.FuncKey(fn) + "#in-slot"
-		good := false
-		for _, ret := range returnsOf(fn) {
-			if !isFieldLoad(ret.Results[0], spec.field) {
-				continue
-			}
-			for _, g := range guardsAt(ret.Block()) {
-				cond, truth := g.atom()
-				cb, ok := cond.(*ssa.BinOp)
-				if !ok {
-					continue
-				}
-				op := cb.Op
-				if !truth {
-					op = negateOp(op)
-				}
-				if add, ok := cb.X.(*ssa.BinOp); ok && add.Op == token.ADD && isFieldLoad(add.X, "position") && isLenOfField(cb.Y, "content") && op == token.GTR {
-					good = true
-				}
-				if isFieldLoad(cb.X, "position") && isLenOfField(cb.Y, "content") && op == token.GEQ {
-					good = true
-				}
-			}
-		}
-		o.check(good, key, c.Pos(fn.Pos()), "returns the current "+spec.field+" when position+1 > len(content) (the next read does not move)", spec.name+" keeps adding a position after the end-of-input slot was consumed: the peeked coordinates differ from those reported after the next read")
-	}
-	// recomputation loop: sliding window
-	unread := c.MustFunc(pkgIO, "StringScanner", "Unread")
-	{
-		key := c.FuncKey(unread) + "#recompute-window"
-		bad := "recomputation loop not found"
-		for _, ci := range allCalls(unread) {
-			if ci.Common().StaticCallee() != isLine {
-				continue
-			}
-			a := ci.Common().Args
-			pb, okb := a[1].(*ssa.Phi)
-			pa, oka := a[2].(*ssa.Phi)
-			if !okb || !oka {
-				continue
-			}
-			bad = ""
-			// before' = at, at' = after (the value passed as third argument), after = charAt(idx+1)
-			backEdge := func(p *ssa.Phi) ssa.Value {
-				for i, e := range p.Edges {
-					if p.Block().Dominates(p.Block().Preds[i]) {
-						return e
-					}
-				}
-				return nil
-			}
-			if backEdge(pb) != ssa.Value(pa) {
-				bad = "in the recomputation loop `before` is not advanced from `at`: the window is skewed and a CR next to an LF is classified differently than by Read"
-			}
-			if backEdge(pa) != a[3] {
-				bad = "in the recomputation loop `at` is not advanced from `after`"
-			}
-			if call, ok := a[3].(*ssa.Call); !ok || call.Call.StaticCallee() != charAt {
-				bad = "`after` is not read from the content"
-			}
-			// column test on `at`
-			for _, cj := range allCalls(unread) {
-				if cj.Common().StaticCallee() == isCol && cj.Block().Parent() == unread && pa.Block().Dominates(cj.Block()) && cj.Common().Args[1] != ssa.Value(pa) {
-					if _, isPhi := cj.Common().Args[1].(*ssa.Phi); isPhi {
-						bad = "the recomputation tests the column of a different character than the line test"
-					}
-				}
-			}
-		}
-		o.check(bad == "", key, c.Pos(unread.Pos()), "window slides (before ← at ← after ← charAt(i+1)); column test on `at`", bad)
-	}
+	curEmit(c, o, []string{"Read#forward-scan", "Peek#predicts-next-read", "Line-Column#report-state"})
 	return o.list
 }
 
 func ruleCurUnread(c *Ctx) []*Obligation {
 	o := newObl("CUR.unread")
-	fn := c.MustFunc(pkgIO, "StringScanner", "Unread")
-	charAt := c.MustFunc(pkgIO, "StringScanner", "charAt")
-	isLine := c.MustFunc(pkgIO, "StringScanner", "isLine")
-	isCol := c.MustFunc(pkgIO, "StringScanner", "isColumn")
-	// the character being put back: charAt(position) loaded before the decrement
-	var posStore ssa.Instruction
-	for _, b := range fn.Blocks {
-		for _, in := range b.Instrs {
-			if st, ok := in.(*ssa.Store); ok {
-				if fa, ok := st.Addr.(*ssa.FieldAddr); ok && fieldName(fa.X.Type(), fa.Field) == "position" {
-					posStore = st
-				}
-			}
-		}
-	}
-	if posStore == nil {
-		o.bad(c.FuncKey(fn)+"#paths", c.Pos(fn.Pos()), "Unread does not move the cursor")
-		return o.list
-	}
-	unreadChar := func(v ssa.Value, off int64) bool {
-		call, ok := v.(*ssa.Call)
-		if !ok || call.Call.StaticCallee() != charAt || !instrDominates(call, posStore) {
-			return false
-		}
-		k, ok := positionOffset(call.Call.Args[1])
-		return ok && k == off
-	}
-	// enumerate acyclic paths from the position store to each return; classify the stores to line/column
-	type pathInfo struct {
-		stores []string
-		guards []string
-		ret    *ssa.Return
-	}
-	var paths []pathInfo
-	var walk func(b *ssa.BasicBlock, startIdx int, stores, guards []string, seen map[*ssa.BasicBlock]bool)
-	walk = func(b *ssa.BasicBlock, startIdx int, stores, guards []string, seen map[*ssa.BasicBlock]bool) {
-		if seen[b] {
-			return
-		}
-		seen[b] = true
-		defer delete(seen, b)
-		for _, in := range b.Instrs[startIdx:] {
-			switch t := in.(type) {
-			case *ssa.Store:
-				if fa, ok := t.Addr.(*ssa.FieldAddr); ok {
-					f := fieldName(fa.X.Type(), fa.Field)
-					if f == "line" || f == "column" {
-						d := f + ":=?"
-						if k, isK := constInt(t.Val); isK {
-							d = fmt.Sprintf("%s:=%d", f, k)
-						} else if bo, ok := t.Val.(*ssa.BinOp); ok && isFieldLoad(bo.X, f) {
-							if k, isK := constInt(bo.Y); isK {
-								d = fmt.Sprintf("%s%s%d", f, bo.Op, k)
-							}
-						}
-						stores = append(stores, d)
-					}
-				}
-			case *ssa.Return:
-				paths = append(paths, pathInfo{append([]string{}, stores...), append([]string{}, guards...), t})
-				return
-			case *ssa.If:
-				desc := "?"
-				if call, ok := t.Cond.(*ssa.Call); ok {
-					switch call.Call.StaticCallee() {
-					case isCol:
-						if unreadChar(call.Call.Args[1], 0) {
-							desc = "isColumn(unread)"
-						} else {
-							desc = "isColumn(other)"
-						}
-					case isLine:
-						a := call.Call.Args
-						if unreadChar(a[1], -1) && unreadChar(a[2], 0) && unreadChar(a[3], 1) {
-							desc = "isLine(unread)"
-						} else {
-							desc = "isLine(other)"
-						}
-					}
-				} else if bo, ok := t.Cond.(*ssa.BinOp); ok {
-					desc = "cmp:" + c.newExpr(fn).str(bo)
-				}
-				walk(b.Succs[0], 0, stores, append(append([]string{}, guards...), desc+"=T"), seen)
-				walk(b.Succs[1], 0, stores, append(append([]string{}, guards...), desc+"=F"), seen)
-				return
-			}
-		}
-		for _, s := range b.Succs {
-			walk(s, 0, stores, guards, seen)
-		}
-	}
-	idx := 0
-	for i, in := range posStore.Block().Instrs {
-		if in == posStore {
-			idx = i + 1
-		}
-	}
-	walk(posStore.Block(), idx, nil, nil, map[*ssa.BasicBlock]bool{})
-	has := func(gs []string, s string) bool {
-		for _, g := range gs {
-			if g == s {
-				return true
-			}
-		}
-		return false
-	}
-	kinds := map[string]int{}
-	for _, p := range paths {
-		st := strings.Join(p.stores, ",")
-		key := fmt.Sprintf("%s#after-move#%s", c.FuncKey(fn), func() string {
-			if st == "" {
-				return "none"
-			}
-			if strings.HasPrefix(st, "line:=1,column:=0") {
-				return "recompute"
-			}
-			return st
-		}())
-		switch {
-		case st == "column-1":
-			kinds["column-back"]++
-			if has(p.guards, "isColumn(unread)=T") {
-				o.ok(key, c.Pos(p.ret.Pos()), "one column back exactly when the character put back occupies a column")
-			} else {
-				o.bad(key, c.Pos(p.ret.Pos()), "the column is decremented without testing that the character put back occupies a column (guards: "+strings.Join(p.guards, " ")+"): after putting back a CR next to an LF, or when the forward read did not count the position, the column no longer equals that of a fresh forward scan")
-			}
-		case st == "":
-			kinds["unchanged"]++
-			if has(p.guards, "isColumn(unread)=F") && has(p.guards, "isLine(unread)=F") {
-				o.ok(key, c.Pos(p.ret.Pos()), "coordinates unchanged exactly when the character put back is neither a column nor a line break (a CR glued to an LF)")
-			} else {
-				o.bad(key, c.Pos(p.ret.Pos()), "Unread returns with line/column unchanged on a path that does not establish that the character put back contributed nothing (guards: "+strings.Join(p.guards, " ")+")")
-			}
-		case strings.HasPrefix(st, "line:=1,column:=0"):
-			kinds["recompute"]++
-			o.ok(key, c.Pos(p.ret.Pos()), "full recomputation: line and column both reset, then replayed")
-		default:
-			o.bad(key, c.Pos(p.ret.Pos()), "after moving the cursor back Unread updates the coordinates as ["+st+"], which is none of: one column back / unchanged / full reset-and-replay (a partial reset leaves a stale line or column)")
-		}
-	}
-	if kinds["recompute"] == 0 {
-		o.bad(c.FuncKey(fn)+"#after-move#recompute", c.Pos(fn.Pos()), "no path recomputes the coordinates after a line break is put back")
-	}
-	// the replay loop runs while i <= position
-	{
-		key := c.FuncKey(fn) + "#replay-bound"
-		good := false
-		for _, b := range fn.Blocks {
-			if ifi, ok := b.Instrs[len(b.Instrs)-1].(*ssa.If); ok {
-				if bo, ok := ifi.Cond.(*ssa.BinOp); ok && bo.Op == token.LEQ && isFieldLoad(bo.Y, "position") {
-					if phi, ok := bo.X.(*ssa.Phi); ok {
-						for _, e := range phi.Edges {
-							if k, isK := constInt(e); isK && k == 0 {
-								good = true
-							}
-						}
-					}
-				}
-			}
-		}
-		o.check(good, key, c.Pos(fn.Pos()), "replay covers positions 0..position inclusive", "the replay loop does not cover exactly the positions 0..position")
-	}
-	// UnreadMany = n × Unread
-	{
-		um := c.MustFunc(pkgIO, "StringScanner", "UnreadMany")
-		key := c.FuncKey(um) + "#n-times-unread"
-		calls, dec, guardOK := 0, false, false
-		for _, ci := range allCalls(um) {
-			if ci.Common().StaticCallee() == fn {
-				calls++
-				for _, g := range guardsAt(ci.Block()) {
-					cond, truth := g.atom()
-					if bo, ok := cond.(*ssa.BinOp); ok && truth && bo.Op == token.GTR {
-						if k, isK := constInt(bo.Y); isK && k == 0 {
-							guardOK = true
-						}
-					}
-				}
-			}
-		}
-		for _, b := range um.Blocks {
-			for _, in := range b.Instrs {
-				if bo, ok := in.(*ssa.BinOp); ok && bo.Op == token.SUB {
-					if k, isK := constInt(bo.Y); isK && k == 1 {
-						dec = true
-					}
-				}
-			}
-		}
-		o.check(calls == 1 && dec && guardOK, key, c.Pos(um.Pos()), "loops `for count > 0 { Unread(); count-- }`", "UnreadMany is not count single Unread steps")
-	}
-	// Reset = constructor state
-	{
-		rs := c.MustFunc(pkgIO, "StringScanner", "Reset")
-		ctor := c.MustFunc(pkgIO, "", "NewStringScanner")
-		collect := func(f *ssa.Function) map[string]int64 {
-			m := map[string]int64{}
-			for _, b := range f.Blocks {
-				for _, in := range b.Instrs {
-					if st, ok := in.(*ssa.Store); ok {
-						if fa, ok := st.Addr.(*ssa.FieldAddr); ok {
-							if k, isK := constInt(st.Val); isK {
-								m[fieldName(fa.X.Type(), fa.Field)] = k
-							}
-						}
-					}
-				}
-			}
-			return m
-		}
-		a, b := collect(ctor), collect(rs)
-		var diffs []string
-		for _, f := range []string{"position", "line", "column"} {
-			if a[f] != b[f] {
-				diffs = append(diffs, fmt.Sprintf("%s: constructor %d, Reset %d", f, a[f], b[f]))
-			}
-			if _, ok := b[f]; !ok {
-				diffs = append(diffs, f+" not reset")
-			}
-		}
-		sort.Strings(diffs)
-		o.check(len(diffs) == 0, c.FuncKey(rs)+"#constructor-state", c.Pos(rs.Pos()), "Reset stores the constructor's position/line/column", strings.Join(diffs, "; "))
-	}
+	curEmit(c, o, []string{"Unread#fresh-scan-state", "UnreadMany#n-times-unread", "Reset#constructor-state"})
 	return o.list
 }
